@@ -97,6 +97,11 @@ def main(argv=None):
         return 3
     names.sort()
     jobs = max(1, min(a.jobs, len(names)))
+    # bounded stand-ins (numeric oracles for clauses the contracts leave undecided; never counted as proved) run in both
+    # tiers, concurrently with the proof tasks
+    from concurrent.futures import ThreadPoolExecutor as _TPE
+    _standin_pool = _TPE(max_workers=1)
+    _standin_future = _standin_pool.submit(standins.run_for, a.prop, seed, tier) if not a.only else None
     work = [(n, tier, timeout_ms, dep_filter.get(n)) for n in names]
     if jobs == 1:
         outs = [_worker(w) for w in work]
@@ -177,10 +182,10 @@ def main(argv=None):
 
     # bounded stand-ins (thorough tier only; never counted as proved)
     standin_reports = list(bounded_reports)
-    if tier == "thorough" and not a.only:
+    if _standin_future is not None:
         ran = []
         try:
-            ran = standins.run_for(a.prop, seed)
+            ran = _standin_future.result()
             standin_reports = standin_reports + ran
         except Exception as e:
             broken.append("stand-in harness: %r" % (e,))
